@@ -330,15 +330,49 @@ func byteMutate(t *rapid.T, s string) string {
 	return string(b)
 }
 
+// injected results: embedded Rego lets a profile put anything into the result sets the report is built from
+// (entries that are not objects, objects without the expected members, members of the wrong kind). The profile
+// compiles; whatever the report builder makes of the entry, the caller must get a report or an error.
+var injectedEntries = []string{`"text"`, `5`, `true`, `null`, `[1]`, `{}`, `{"focusNode": 5}`, `{"sourceShapeName": "v"}`, `{"trace": "x"}`,
+	`{"focusNode": "http://ex.org/n/n0", "resultMessage": 5, "trace": [5]}`, `{"focusNode": "http://ex.org/n/n0", "sourceShapeName": "v", "resultMessage": "m", "trace": [{"component": 5}]}`,
+	`{"focusNode": "http://ex.org/n/n0", "sourceShapeName": "v", "resultMessage": "m", "trace": [{"component": "c", "resultPath": "p", "traceValue": "not an object"}]}`,
+	`{"focusNode": "http://ex.org/n/n0", "sourceShapeName": "v", "resultMessage": "m", "trace": [{"component": "c", "resultPath": "p", "traceValue": {"subResult": [7]}}]}`,
+	`{"focusNode": ["a", "b"], "sourceShapeName": {"x": 1}, "resultMessage": null, "trace": []}`, `[[[]]]`, `{"trace": [[]]}`, `input`, `data`}
+
+func genInjectionProfile(t *rapid.T) string {
+	levels := []string{"violation", "warning", "info"}
+	listed := pick(t, levels, "listedLevel")
+	injected := pick(t, levels, "injectedLevel")
+	entry := pick(t, injectedEntries, "injectedEntry")
+	var sb strings.Builder
+	sb.WriteString("profile: injected\nprefixes:\n  ex: http://ex.org/v#\n")
+	if rapid.IntRange(0, 4).Draw(t, "listV") != 0 {
+		sb.WriteString(listed + ":\n- v\n")
+	}
+	sb.WriteString("validations:\n  v:\n    targetClass: ex.Test\n    propertyConstraints:\n      ex.p0:\n        minCount: " + pick(t, []string{"0", "1", "5"}, "injMin") + "\n")
+	switch rapid.IntRange(0, 3).Draw(t, "injectionForm") {
+	case 0: // a complete rule
+		sb.WriteString("rego_extensions: |\n  " + injected + " = " + entry + "\n")
+	case 1: // an element rule with a condition on the input
+		sb.WriteString("rego_extensions: |\n  " + injected + "[m] {\n    count(input) >= 0\n    m := " + entry + "\n  }\n")
+	default:
+		sb.WriteString("rego_extensions: |\n  " + injected + "[m] { m := " + entry + " }\n")
+	}
+	return sb.String()
+}
+
 func genC17(t *rapid.T) c17Case {
 	loadFixtures()
 	c := c17Case{Entry: pick(t, c17Entries, "entry"), Debug: rapid.IntRange(0, 3).Draw(t, "debug") == 0}
 	// profile (half of the cases keep the profile valid so that mutated data reaches indexing and evaluation)
-	pk := rapid.IntRange(0, 9).Draw(t, "pkind")
+	pk := rapid.IntRange(0, 10).Draw(t, "pkind")
 	if rapid.Bool().Draw(t, "keepProfile") {
 		pk = 3
 	}
 	switch pk {
+	case 10:
+		c.Profile = genInjectionProfile(t)
+		c.Ops = append(c.Ops, "p:injected-result-entry")
 	case 0:
 		c.Profile = pick(t, rawProfiles, "rawProfile")
 		c.Ops = append(c.Ops, "p:raw")
